@@ -59,6 +59,10 @@ def main():
         r0 = sh(["/venv/bin/python", demo], env=env, timeout=300)
         res["demo_clean_exit"] = r0.returncode
         r = sh(["git", "-C", wt, "apply", os.path.join(d, "patch.diff")])
+        if r.returncode != 0:
+            # written against an earlier HEAD (before later repairs): fall back to a 3-way merge
+            r = sh(["git", "-C", wt, "apply", "--3way", os.path.join(d, "patch.diff")])
+            res["patch_applied_3way"] = r.returncode == 0
         res["patch_applies"] = r.returncode == 0
         if r.returncode != 0:
             res["patch_error"] = r.stderr[-500:]
